@@ -153,8 +153,25 @@ def run(ck):
                 return all(has(n) for n in need)
             vok = bool(passing) and all(implies(o) for o in passing) and any(o.kind == "raise" for o in outs)
             detail = "every accepting path of %s must establish 0 <= value and value <= 1" % r.qualname
+
+            def rejects_nan(o):
+                """A comparison with NaN is never true: an accepting path on which some comparison involving the value came out
+                TRUE (as written, an even number of `not`s around it) cannot be taken by NaN."""
+                for c, d in o.trace:
+                    neg = False
+                    while isinstance(c, tuple) and c and c[0] == "not":
+                        c, neg = c[1], not neg
+                    if isinstance(c, tuple) and len(c) == 3 and c[0] in ("lt", "le", "gt", "ge", "eq") and isinstance(c[1], Rat) \
+                            and (val.id in c[1].deps() or val.id in c[2].deps()) and (d != neg):
+                        return True
+                return False
+            nan_ok = bool(passing) and all(rejects_nan(o) for o in passing)
     ck.ob("V1", "Composition", "p validator rejects values outside [0,1]", C.module.relpath + ":%d" % C.node.lineno,
           vok, detail)
+    if fld is not None and fld.validator is not None and vok:
+        ck.ob("V1", "Composition", "p validator rejects NaN (every accepting path rests on a comparison that came out true)",
+              C.module.relpath + ":%d" % C.node.lineno, nan_ok,
+              "an accepting path decided only by comparisons that are false lets NaN through: a NaN fraction is then a valid Composition")
     # who may write .p
     hits = attribute_writes(repo, "Composition", "p")
     ck.ob("W1", "package", "no assignment to Composition.p", C.module.relpath, not hits,
